@@ -5,11 +5,13 @@ programs of `FitModel/DecHist.lean` (the object of `C08_chunk_indep_ops`) run on
 call by call, in the common observable `Tok` (what every call returns at framing level: FIT header / CRC, file header,
 "a file id", nil, `Next`'s bool, verdict of `CheckIntegrity`, error class — the two end-of-stream errors one class).
 
-Here: the definitions (`Tok`, `tokH`, `tokC`, `apiOp`), the state correspondence between the two models between two calls
-(`Rel`: options, remaining stream, sticky error, the `sync.Once` of the header with the header it decoded, position in the
-sequence, running checksum, "a byte was consumed"), the header (`fileHeaderH_wp`, `headerOnce_link`), `discardMessages`
-(`discard_link`), the dead decoder (`run_dead`) and the sequencing theorem `run_link` for the calls that do not enter the
-record loop: `PeekFileHeader`, `Discard`, `Next`, `DecodeWithContext` with a cancelled context.
+Here: the definitions (`Tok`, `tokH`, `tokC`, `apiOp`, `fitsC`, `foldDone`), the state correspondence between the two models between
+two calls (`Rel`: options, remaining stream, sticky error, the `sync.Once` of the header with the header it decoded, position in the
+sequence, running checksum, "a byte was consumed", empty tables / accumulator at a sequence boundary, (D')'s events = those of the
+completed `Decode` calls with the entries `apiOf` rebuilds from them), the header (`fileHeaderH_wp`, `headerOnce_link`),
+`discardMessages` (`discard_link`), the dead decoder (`run_dead`, `fitsC_dead`), `Decode` (`decode_link`, over `messagesH_link` of
+`LinkLemmasHistRec.lean`), `CheckIntegrity` (`ci_link`) and the sequencing theorem `run_link` for call lists `linkedL`: `Decode`,
+`DecodeWithContext` (live / cancelled before the call), `PeekFileHeader`, `Discard`, `Next`, then possibly one `CheckIntegrity`.
 -/
 set_option linter.unusedSimpArgs false
 set_option linter.unusedVariables false
